@@ -202,7 +202,8 @@ func (c *config) canaries(nonce string) []canary {
 	l := []canary{{"canary.txt", mk("PARENT")}, {"secret/canary.txt", mk("SIBLINGDIR")}, {"rootx/canary.txt", mk("PREFIXSIB")}}
 	if c.compress() {
 		for _, s := range c.suffixes() {
-			l = append(l, canary{"root" + s, mk("ROOTSUFFIX")})
+			// same content for every configuration: compressed once (see canaryContent)
+			l = append(l, canary{"root" + s, canaryPrefix + "ROOTSUFFIX-" + nonce})
 		}
 	}
 	return l
@@ -222,11 +223,18 @@ func compressFor(suffix string, data []byte) []byte {
 	return b.Bytes()
 }
 
+var compressedCanary = map[string][]byte{}
+
 func canaryContent(cn canary) []byte {
 	body := []byte(strings.Repeat(cn.Marker+" this file lives outside the root\n", 40))
 	for _, s := range append([]string{customSuffix}, compSuffixes...) {
 		if strings.HasSuffix(cn.Rel, s) {
-			return compressFor(s, body)
+			if d, ok := compressedCanary[s+cn.Marker]; ok {
+				return d
+			}
+			d := compressFor(s, body)
+			compressedCanary[s+cn.Marker] = d
+			return d
 		}
 	}
 	return body
@@ -538,6 +546,9 @@ func newAgg() *agg {
 }
 
 func (a *agg) violation(i int, key, what string, payload map[string]any) {
+	if m, ok := payload["monitor"].(string); ok {
+		a.events["refutations_by_"+m+"_monitor"]++
+	}
 	v := a.viol[key]
 	if v == nil {
 		v = &violAgg{}
@@ -608,6 +619,7 @@ func judge(a *agg, i int, c *config, tc *testCase, o *caseObs, nonce string) {
 	a.events["mode_"+tc.Mode]++
 	pl := func() map[string]any {
 		p := casePayload(i, c, tc)
+		p["monitor"] = "status"
 		p["status"] = o.status
 		p["rewritten_path"] = short(string(o.rewr))
 		return p
@@ -667,6 +679,7 @@ func judge(a *agg, i int, c *config, tc *testCase, o *caseObs, nonce string) {
 			return fmt.Sprintf("fs.FS Open(%s): %s; Root=%q, target %s host %q, %s", short(name), s, c.FSRoot, short(tc.Target), tc.Host, c.features())
 		}
 		p := pl()
+		p["monitor"] = "fs_open"
 		p["open_name"] = short(name)
 		switch {
 		case strings.IndexByte(name, 0) >= 0:
@@ -710,12 +723,15 @@ func judge(a *agg, i int, c *config, tc *testCase, o *caseObs, nonce string) {
 					key = "root-dir-compressed-sibling"
 				}
 				p := pl()
+				p["monitor"] = "canary"
 				p["marker"] = string(m)
 				a.violation(i, key, fmt.Sprintf("response body (status %d, Content-Encoding %q) contains the content of a file outside Root (%s); target %s host %q ae %q, %s", o.status, o.enc, m, short(tc.Target), tc.Host, tc.AE, c.features()), p)
 				break
 			}
 			if bytes.Contains(b, []byte(witnessPrefix)) {
-				a.violation(i, "outside-dir-listed", fmt.Sprintf("response body lists a directory outside Root; target %s host %q, %s", short(tc.Target), tc.Host, c.features()), pl())
+				p := pl()
+				p["monitor"] = "canary"
+				a.violation(i, "outside-dir-listed", fmt.Sprintf("response body lists a directory outside Root; target %s host %q, %s", short(tc.Target), tc.Host, c.features()), p)
 				break
 			}
 		}
